@@ -26,7 +26,9 @@ import (
 // <srchex> is the source of a.proto (hex; "-" = strip the schema file o.proto itself); it is
 // compiled by the real compiler together with the fixed schema retSchema. <mode>: n = no source
 // info, s = standard, x = extra option locations, e = empty non-nil SourceCodeInfo; a trailing
-// "o" additionally gives every element without options an empty non-nil options message.
+// "o" additionally gives every element without options an empty non-nil options message; a
+// letter B or C selects another revision of the schema (retSchemaB: retentions swapped,
+// retSchemaC: awkward field numbers).
 // "T <elem> L <locs>" is the abstract description of the compiled descriptor (see
 // lean/PCV/Engines/Retention.lean) that the Lean model works on; Exec recomputes it from the
 // compiled file and refuses the op if it differs, so Lean never parses protos and the tree is
@@ -46,51 +48,80 @@ var retKinds = []struct{ pfx, opts string }{
 	{"sv", "ServiceOptions"}, {"mt", "MethodOptions"},
 }
 
-// retSchema is o.proto: a recursive option value type N whose fields carry every retention,
+// retNums: the field numbers of one schema revision — the twelve fields of the option value
+// type N (a b c d m s t r rs q qs z) and the eleven custom options declared for every options
+// message (i_n i_u i_r i_s m_n m_r m_s q_n q_s r_n r_s).
+type retNums struct {
+	n   [12]int
+	ext [11]int
+}
+
+var retNumsA = retNums{
+	n:   [12]int{1, 2, 3, 4, 5, 6, 7, 8, 9, 10, 11, 12},
+	ext: [11]int{1001, 1002, 1003, 1004, 1005, 1006, 1007, 1008, 1009, 1010, 1011},
+}
+
+// retNumsC: "awkward" numbers. 55296..57343 are UTF-16 surrogates, 65533 is U+FFFD, everything
+// above 1114111 is beyond the last code point (so any []int32 -> string / rune conversion of a
+// path maps them all to U+FFFD), 65534 and 1114111 are the neighbouring valid values,
+// 536870911 is the largest field number; 19000..19999 is avoided. Source-retention and retained
+// options of the same element differ only in such numbers: i_s 57343 vs i_n/i_u/i_r
+// 55296/55297/56000, q_s 1200000 vs q_n 1114112, r_s 536870911 vs r_n 1200001, m_n 65533.
+var retNumsC = retNums{
+	n:   [12]int{1, 55296, 55297, 65533, 1114112, 1114113, 7, 1200000, 1200001, 10, 56000, 12},
+	ext: [11]int{55296, 55297, 56000, 57343, 65533, 65534, 1114111, 1114112, 1200000, 1200001, 536870911},
+}
+
+// retMakeSchema is o.proto: a recursive option value type N whose fields carry every retention,
 // and for each of the nine options messages the same eleven custom options.
-var retSchema = func() string {
+func retMakeSchema(nums retNums) string {
 	var b strings.Builder
-	b.WriteString(`syntax = "proto2";
+	n := nums.n
+	fmt.Fprintf(&b, `syntax = "proto2";
 package o;
 import "google/protobuf/descriptor.proto";
 message N {
-  optional int32 a = 1 [retention = RETENTION_SOURCE];
-  optional int32 b = 2 [retention = RETENTION_RUNTIME];
-  optional int32 c = 3;
-  optional int32 d = 4 [retention = RETENTION_UNKNOWN];
-  optional N m = 5;
-  optional N s = 6 [retention = RETENTION_SOURCE];
-  optional N t = 7 [retention = RETENTION_RUNTIME];
-  repeated N r = 8;
-  repeated N rs = 9 [retention = RETENTION_SOURCE];
-  repeated int32 q = 10;
-  repeated int32 qs = 11 [retention = RETENTION_SOURCE];
-  optional string z = 12 [retention = RETENTION_SOURCE];
+  optional int32 a = %d [retention = RETENTION_SOURCE];
+  optional int32 b = %d [retention = RETENTION_RUNTIME];
+  optional int32 c = %d;
+  optional int32 d = %d [retention = RETENTION_UNKNOWN];
+  optional N m = %d;
+  optional N s = %d [retention = RETENTION_SOURCE];
+  optional N t = %d [retention = RETENTION_RUNTIME];
+  repeated N r = %d;
+  repeated N rs = %d [retention = RETENTION_SOURCE];
+  repeated int32 q = %d;
+  repeated int32 qs = %d [retention = RETENTION_SOURCE];
+  optional string z = %d [retention = RETENTION_SOURCE];
 }
 message X { extensions 1 to max; }
-`)
+`, n[0], n[1], n[2], n[3], n[4], n[5], n[6], n[7], n[8], n[9], n[10], n[11])
+	e := nums.ext
 	for _, k := range retKinds {
 		fmt.Fprintf(&b, `extend google.protobuf.%s {
-  optional int32 %[2]s_i_n = 1001;
-  optional int32 %[2]s_i_u = 1002 [retention = RETENTION_UNKNOWN];
-  optional int32 %[2]s_i_r = 1003 [retention = RETENTION_RUNTIME];
-  optional int32 %[2]s_i_s = 1004 [retention = RETENTION_SOURCE];
-  optional N %[2]s_m_n = 1005;
-  optional N %[2]s_m_r = 1006 [retention = RETENTION_RUNTIME];
-  optional N %[2]s_m_s = 1007 [retention = RETENTION_SOURCE];
-  repeated int32 %[2]s_q_n = 1008;
-  repeated int32 %[2]s_q_s = 1009 [retention = RETENTION_SOURCE];
-  repeated N %[2]s_r_n = 1010;
-  repeated N %[2]s_r_s = 1011 [retention = RETENTION_SOURCE];
+  optional int32 %[2]s_i_n = %[3]d;
+  optional int32 %[2]s_i_u = %[4]d [retention = RETENTION_UNKNOWN];
+  optional int32 %[2]s_i_r = %[5]d [retention = RETENTION_RUNTIME];
+  optional int32 %[2]s_i_s = %[6]d [retention = RETENTION_SOURCE];
+  optional N %[2]s_m_n = %[7]d;
+  optional N %[2]s_m_r = %[8]d [retention = RETENTION_RUNTIME];
+  optional N %[2]s_m_s = %[9]d [retention = RETENTION_SOURCE];
+  repeated int32 %[2]s_q_n = %[10]d;
+  repeated int32 %[2]s_q_s = %[11]d [retention = RETENTION_SOURCE];
+  repeated N %[2]s_r_n = %[12]d;
+  repeated N %[2]s_r_s = %[13]d [retention = RETENTION_SOURCE];
 }
-`, k.opts, k.pfx)
+`, k.opts, k.pfx, e[0], e[1], e[2], e[3], e[4], e[5], e[6], e[7], e[8], e[9], e[10])
 	}
 	return b.String()
-}()
+}
+
+// retSchema is revision A of o.proto (numbers 1..12 and 1001..1011).
+var retSchema = retMakeSchema(retNumsA)
 
 // ---------------------------------------------------------------- compile + projection
 
-var retSchemaFiles = map[bool]protoreflect.FileDescriptor{}
+var retSchemaFiles = map[string]protoreflect.FileDescriptor{}
 
 // retSchemaB is a second revision of o.proto: the same option and field names, but every
 // RETENTION_SOURCE is RETENTION_RUNTIME and vice versa. Mode strings containing 'B' compile
@@ -102,16 +133,35 @@ var retSchemaB = func() string {
 	return strings.ReplaceAll(t, "RETENTION_\x00", "RETENTION_RUNTIME")
 }()
 
-func retSchemaFor(revB bool) string {
-	if revB {
+// retSchemaC is a third revision: names and retentions of revision A, field numbers retNumsC.
+// Mode strings containing 'C' compile against it. The numbers only show in source paths, so
+// these ops matter in the source-info modes (s, x): anything that encodes, hashes or truncates
+// path elements on the way into or out of the removed-path set is seen as a wrong location list.
+var retSchemaC = retMakeSchema(retNumsC)
+
+// retRevision splits the schema revision letter off a mode string.
+func retRevision(mode string) (rev, rest string) {
+	switch {
+	case strings.Contains(mode, "B"):
+		rev = "B"
+	case strings.Contains(mode, "C"):
+		rev = "C"
+	}
+	return rev, strings.NewReplacer("B", "", "C", "").Replace(mode)
+}
+
+func retSchemaFor(rev string) string {
+	switch rev {
+	case "B":
 		return retSchemaB
+	case "C":
+		return retSchemaC
 	}
 	return retSchema
 }
 
 func retCompile(src string, mode string) (*descriptorpb.FileDescriptorProto, error) {
-	revB := strings.Contains(mode, "B")
-	mode = strings.ReplaceAll(mode, "B", "")
+	rev, mode := retRevision(mode)
 	if mode == "" {
 		return nil, fmt.Errorf("bad mode")
 	}
@@ -133,25 +183,25 @@ func retCompile(src string, mode string) (*descriptorpb.FileDescriptorProto, err
 	srcs := map[string]string{"a.proto": src}
 	var res protocompile.Resolver = &protocompile.SourceResolver{Accessor: protocompile.SourceAccessorFromMap(srcs)}
 	if target == "o.proto" {
-		srcs["o.proto"] = retSchemaFor(revB)
+		srcs["o.proto"] = retSchemaFor(rev)
 	} else {
 		// the schema is compiled once (by the same compiler) and handed over as a descriptor
-		if retSchemaFiles[revB] == nil {
+		if retSchemaFiles[rev] == nil {
 			sc := protocompile.Compiler{
 				Resolver: protocompile.WithStandardImports(&protocompile.SourceResolver{
-					Accessor: protocompile.SourceAccessorFromMap(map[string]string{"o.proto": retSchemaFor(revB)}),
+					Accessor: protocompile.SourceAccessorFromMap(map[string]string{"o.proto": retSchemaFor(rev)}),
 				}),
 			}
 			fs, err := sc.Compile(context.Background(), "o.proto")
 			if err != nil {
 				return nil, err
 			}
-			retSchemaFiles[revB] = fs[0]
+			retSchemaFiles[rev] = fs[0]
 		}
 		res = protocompile.CompositeResolver{
 			protocompile.ResolverFunc(func(path string) (protocompile.SearchResult, error) {
 				if path == "o.proto" {
-					return protocompile.SearchResult{Desc: retSchemaFiles[revB]}, nil
+					return protocompile.SearchResult{Desc: retSchemaFiles[rev]}, nil
 				}
 				return protocompile.SearchResult{}, protoregistry.NotFound
 			}),
@@ -994,6 +1044,47 @@ func (retentionEngine) Gen(r *Rand, tier string) [][]string {
 			}
 		}
 	}
+	// schema revision C (awkward field numbers: surrogates, U+FFFD, beyond the last code point,
+	// the largest field number) in the source-info modes: the templates that put a
+	// source-retention option next to retained ones on the same element, so that a removed path
+	// and a kept path differ only in such a number — in quick the mixed templates, in thorough all
+	mixed := map[int]bool{1: true, 5: true, 6: true, 7: true, 8: true, 9: true, 22: true, 24: true, 28: true, 32: true, 35: true, 36: true}
+	for _, k := range retKinds {
+		for ti, t := range retTemplates {
+			if !mixed[ti] && !thorough {
+				continue
+			}
+			src := retBuild(retMinimalShape(k.pfx), func(pfx string, _ int) []string {
+				if pfx == k.pfx {
+					return retSubst(t, pfx)
+				}
+				return nil
+			})
+			add("sC", src)
+			add("xC", src)
+			if thorough {
+				add("nC", src)
+			}
+		}
+	}
+	// every source-retention option of C paired with every retained one, on a message and on a field
+	for _, k := range []string{"ms", "fd"} {
+		for _, sk := range []string{"(o.%_i_s) = 1", "(o.%_m_s) = { b: 1 }", "(o.%_q_s) = 1", "(o.%_r_s) = { c: 1 }"} {
+			for _, kk := range []string{"(o.%_i_n) = 2", "(o.%_i_u) = 2", "(o.%_i_r) = 2", "(o.%_m_n) = { c: 2 }", "(o.%_m_r) = { b: 2 m { c: 3 } }",
+				"(o.%_q_n) = 2", "(o.%_r_n) = { d: 2 }"} {
+				src := retBuild(retMinimalShape(k), func(pfx string, _ int) []string {
+					if pfx == k {
+						return retSubst([]string{kk, sk}, pfx)
+					}
+					return nil
+				})
+				add("sC", src)
+				if thorough || k == "ms" {
+					add("xC", src)
+				}
+			}
+		}
+	}
 	// nesting of elements: option only on the innermost element of a deep file
 	for _, k := range retKinds {
 		for _, ti := range []int{1, 5, 9, 21} {
@@ -1054,6 +1145,15 @@ func (retentionEngine) Gen(r *Rand, tier string) [][]string {
 				addPair(m, m+"B", src)
 			} else {
 				addPair(m+"B", m, src)
+			}
+		case 6:
+			// revision C, with source info; sometimes after the same file against revision A
+			m := Pick(r, []string{"s", "x", "x", "xo"})
+			cm := m[:1] + "C" + m[1:]
+			if r.Intn(3) == 0 {
+				addPair(m, cm, src)
+			} else {
+				add(cm, src)
 			}
 		default:
 			add("s", src)
